@@ -4,7 +4,15 @@
 use num_bigint::BigInt;
 use num_rational::BigRational;
 use num_traits::{One, Zero};
+use rust_dsymbols::delaney2d;
+use rust_dsymbols::delaney3d::pseudo_toroidal_cover;
+use rust_dsymbols::dsets::DSet;
+use rust_dsymbols::dsyms::{DSym, PartialDSym};
+use rust_dsymbols::fpgroups::invariants::relator_as_vector;
+use rust_dsymbols::fundamental_group::fundamental_group;
 use rust_dsymbols::geometry::matrix::Matrix;
+use rust_dsymbols::pgraphs::{PeriodicGraph, VectorLabelledEdge};
+use std::collections::BTreeMap;
 use rust_dsymbols::geometry::modular_solver;
 use rust_dsymbols::geometry::prime_residue_classes::PrimeResidueClass;
 use rust_dsymbols::geometry::traits::{Array2d, Entry, ScalarPtr};
@@ -582,6 +590,194 @@ fn modsolve_case(ctx: &mut Ctx, a: &IMat, b: &IMat, kind: &str) {
 }
 
 // ------------------------------------------------------------------------------------
+// periodic graphs: barycentric placement (client of the modular solver)
+
+type PEdge = (usize, usize, Vec<i64>);
+
+fn pgraph(edges: &[PEdge]) -> PeriodicGraph {
+    PeriodicGraph::from(edges.iter().map(|(h, t, s)| {
+        let mut shift = VecMatrix::<i64>::new(s.len(), 1);
+        for k in 0..s.len() {
+            shift[k][0] = s[k];
+        }
+        VectorLabelledEdge::make(*h, *t, shift)
+    }))
+}
+
+/// the system of `barycentric_placement`, restated from the public accessors only to derive the
+/// solver's floating-point step count (an input of the Lean model)
+fn pg_steps(g: &PeriodicGraph) -> u64 {
+    let verts = g.vertices();
+    let (n, d) = (verts.len(), g.dim());
+    let idx: BTreeMap<usize, usize> = verts.iter().enumerate().map(|(i, &v)| (v, i)).collect();
+    let mut a: IMat = vec![vec![0; n]; n];
+    let mut t: IMat = vec![vec![0; d]; n];
+    a[0][0] = 1;
+    for i in 1..n {
+        for ngb in g.incidences(verts[i]).unwrap() {
+            // an incidence is printed `head --(shift)-> tail`; head is verts[i]
+            let txt = format!("{ngb}");
+            let tail: usize = txt.rsplit("-> ").next().unwrap().trim().parse().unwrap();
+            let inner = &txt[txt.find('(').unwrap() + 1..txt.find(')').unwrap()];
+            let s: Vec<i64> = inner.split(',').map(|x| x.trim().parse().unwrap()).collect();
+            a[i][idx[&tail]] -= 1;
+            a[i][i] += 1;
+            for k in 0..d {
+                t[i][k] += s[k];
+            }
+        }
+    }
+    steps_needed(&a, &t, PRIME)
+}
+
+fn pg_case(ctx: &mut Ctx, edges: &[PEdge], kind: &str) {
+    if edges.is_empty() {
+        return;
+    }
+    let d = edges[0].2.len();
+    let tags = format!("nt pg-dim={d} pg-kind={kind} pg-edges={}", edges.len().min(40));
+    ctx.case(
+        "pgpos",
+        &tags,
+        || {
+            let g = pgraph(edges);
+            let mut s = format!("{PRIME} {} {d} {}", pg_steps(&g), edges.len());
+            for (h, t, sh) in edges {
+                s.push_str(&format!(" {h} {t}"));
+                for x in sh {
+                    s.push_str(&format!(" {x}"));
+                }
+            }
+            s
+        },
+        || {
+            let g = pgraph(edges);
+            let mut s = g.vertices().len().to_string();
+            for &v in g.vertices() {
+                let p = g.position(v);
+                s.push_str(&format!(" {v}"));
+                for k in 0..g.dim() {
+                    s.push_str(&format!(" {} {}", p[k][0].numer(), p[k][0].denom()));
+                }
+            }
+            s
+        },
+    );
+}
+
+/// the `make_graph` format of the repository's own test: dim, then (head, tail, shift…)*
+fn spec_edges(spec: &[i64]) -> Vec<PEdge> {
+    let dim = spec[0] as usize;
+    let step = dim + 2;
+    (1..spec.len()).step_by(step)
+        .map(|i| (spec[i] as usize, spec[i + 1] as usize, spec[i + 2..i + step].to_vec()))
+        .collect()
+}
+
+/// skeleton of the tiling of a (pseudo-)toroidal cover, following tilings.rs::Skeleton::of
+/// (private there) with the public traversal / fundamental-group / null-space pieces;
+/// written for any dimension (tilings.rs fixes the zero shift to 3 components)
+fn skeleton_edges<T: DSym>(cov: &T) -> Vec<PEdge> {
+    let dim = cov.dim();
+    // chamber_to_node
+    let mut c2n = vec![0usize; cov.size() + 1];
+    for (i, &d) in cov.orbit_reps(1..=dim, cov.elements()).iter().enumerate() {
+        for e in cov.orbit(1..=dim, d) {
+            c2n[e] = i + 1;
+        }
+    }
+    // edge_translations
+    let fg = fundamental_group(cov);
+    let ng = fg.nr_generators();
+    let mut mat = VecMatrix::<i64>::new(fg.relators.len(), ng);
+    for (i, w) in fg.relators.iter().enumerate() {
+        mat[i].copy_from_slice(&relator_as_vector::<i64>(ng, w));
+    }
+    let nul = mat.null_space_matrix();
+    let nd = nul.nr_columns();
+    let e2t: BTreeMap<(usize, usize), Vec<i64>> = fg.edge_to_word.iter().map(|(&(d, i), w)| {
+        let v = relator_as_vector::<i64>(ng, w);
+        ((d, i), (0..nd).map(|c| (0..ng).map(|r| v[r] * nul[r][c]).sum()).collect())
+    }).collect();
+    let zero = vec![0i64; nd];
+    // corner_shifts
+    let mut c2s: BTreeMap<(usize, usize), Vec<i64>> = BTreeMap::new();
+    for i in cov.indices() {
+        let idcs: Vec<usize> = cov.indices().filter(|&k| k != i).collect();
+        for (maybe_k, d, dk) in cov.traversal(idcs, cov.elements()) {
+            let shift = if let Some(k) = maybe_k {
+                let base = c2s[&(d, i)].clone();
+                let t = e2t.get(&(d, k)).unwrap_or(&zero);
+                (0..nd).map(|c| base[c] - t[c]).collect()
+            } else {
+                zero.clone()
+            };
+            c2s.insert((dk, i), shift);
+        }
+    }
+    // skeleton edges
+    let idcs: Vec<usize> = cov.indices().filter(|&i| i != 1).collect();
+    cov.orbit_reps(idcs, cov.elements()).iter().map(|&d| {
+        let e = cov.op(0, d).unwrap();
+        let (sd, se) = (&c2s[&(d, 0)], &c2s[&(e, 0)]);
+        let shift: Vec<i64> = match e2t.get(&(d, 0)) {
+            Some(t) => (0..nd).map(|c| se[c] + t[c] - sd[c]).collect(),
+            None => (0..nd).map(|c| se[c] - sd[c]).collect(),
+        };
+        (c2n[d], c2n[e], shift)
+    }).collect()
+}
+
+fn skeleton_of(spec: &str) -> Option<Vec<PEdge>> {
+    let spec = spec.to_string();
+    std::panic::catch_unwind(move || {
+        let ds = spec.parse::<PartialDSym>().ok()?;
+        let edges = if ds.dim() == 3 {
+            skeleton_edges(&pseudo_toroidal_cover(&ds)?)
+        } else if ds.dim() == 2 && delaney2d::is_euclidean(&ds) {
+            skeleton_edges(&delaney2d::toroidal_cover(&ds))
+        } else {
+            return None;
+        };
+        let d = ds.dim();
+        if edges.is_empty() || edges.iter().any(|e| e.2.len() != d) { None } else { Some(edges) }
+    }).ok().flatten()
+}
+
+/// a connected periodic graph: a random spanning tree plus extra edges (loops included),
+/// shifts in -1..1, so that the net has full translational rank most of the time
+fn random_pgraph(rng: &mut Rng, dim: usize, nv: usize) -> Vec<PEdge> {
+    let mut edges: Vec<PEdge> = vec![];
+    let label = |i: usize| 1 + 3 * i; // non-contiguous vertex names
+    for i in 1..nv {
+        let j = rng.below(i);
+        let s = (0..dim).map(|_| rng.range(-1, 1)).collect();
+        if rng.chance(1, 2) { edges.push((label(i), label(j), s)); } else { edges.push((label(j), label(i), s)); }
+    }
+    for k in 0..dim {
+        // one generator of the lattice per direction keeps the graph `dim`-periodic
+        let v = label(rng.below(nv));
+        let w = label(rng.below(nv));
+        let mut s = vec![0i64; dim];
+        s[k] = 1;
+        edges.push((v, w, s));
+    }
+    for _ in 0..rng.below(2 * nv + 1) {
+        let v = label(rng.below(nv));
+        let w = label(rng.below(nv));
+        let s: Vec<i64> = (0..dim).map(|_| rng.range(-2, 2)).collect();
+        edges.push((v, w, s));
+    }
+    if rng.chance(1, 3) && !edges.is_empty() {
+        // duplicates and reversed copies: the graph is a set of edges
+        let e = edges[rng.below(edges.len())].clone();
+        edges.push((e.1, e.0, e.2.iter().map(|x| -x).collect()));
+        edges.push(edges[0].clone());
+    }
+    edges
+}
+
+// ------------------------------------------------------------------------------------
 
 fn main() {
     let mut ctx = Ctx::from_args();
@@ -695,6 +891,47 @@ fn main() {
             _ => random_matrix(&mut rng, n, k, ent),
         };
         modsolve_case(&mut ctx, &a, &b, kind);
+    }
+
+    // (5) barycentric placement of periodic graphs (pgraphs.rs, client of the modular solver)
+    //     (a) the graphs of the repository's own test_barycentric_positions
+    pg_case(&mut ctx, &spec_edges(&[3, 1, 1, 1, 0, 0, 1, 1, 0, 1, 0, 1, 1, 0, 0, 1]), "repo-test");
+    pg_case(&mut ctx, &spec_edges(&[3, 1, 2, 0, 0, 0, 1, 2, 1, 0, 0, 1, 2, 0, 1, 0, 1, 2, 0, 0, 1]), "repo-test");
+    pg_case(&mut ctx, &spec_edges(&[3,
+        1, 2, 0, 0, 0, 1, 2, 1, 0, -1, 1, 3, 1, 0, 0, 1, 3, 1, 1, -1, 1, 4, 0, 0, 0, 1, 4, 1, 1, 0,
+        2, 3, 0, 0, 0, 2, 3, 1, 1, 0, 2, 4, 0, 0, 1, 2, 4, 0, 1, 0, 3, 4, -1, 0, 1, 3, 4, 0, 0, 0]), "repo-test");
+    //     (b) skeletons of tilings: the four symbols of tilings.rs::test_skeleton, the literature
+    //         corpus corpus/euclidean3d.txt, a few euclidean 2D symbols
+    let mut syms: Vec<String> = vec![
+        "<1.1:1 3:1,1,1,1:4,3,4>", "<1.1:2 3:2,1 2,1 2,2:6,3 2,6>", "<1.1:2 3:1 2,1 2,1 2,2:3 3,3 4,4>",
+        "<1.1:6 3:2 4 6,1 2 3 5 6,3 4 5 6,2 3 4 5 6:6 4,2 3 3,8 4 4>",
+        "<1.1:1:1,1,1:4,4>", "<1.1:1:1,1,1:3,6>", "<1.1:1:1,1,1:6,3>", "<1.1:2:2,1 2,1 2:4,4 4>",
+        "<1.1:2:2,1 2,1 2:6,3 3>", "<1.1:2:1 2,1 2,2:3 3,6>", "<1.1:3:1 2 3,1 3,2 3:4 8,3>",
+        "<1.1:6:2 4 6,1 2 3 5 6,3 4 5 6:3,3 3 3>",
+    ].into_iter().map(String::from).collect();
+    if let Ok(txt) = std::fs::read_to_string(concat!(env!("CARGO_MANIFEST_DIR"), "/../corpus/euclidean3d.txt")) {
+        let corpus: Vec<String> = txt.lines().map(|l| l.trim().to_string())
+            .filter(|l| !l.is_empty() && !l.starts_with('#')).collect();
+        let take = if th { corpus.len() } else { 8 };
+        syms.extend(corpus.into_iter().take(take));
+    }
+    for sym in &syms {
+        if ctx.peek_mine() {
+            match skeleton_of(sym) {
+                Some(edges) => pg_case(&mut ctx, &edges, "skeleton"),
+                None => ctx.skip(),
+            }
+        } else {
+            ctx.skip();
+        }
+    }
+    //     (c) seeded random connected periodic graphs, dim 2-3, up to 8 vertices
+    let mut rng = ctx.rng(50);
+    for _ in 0..(if th { 20000 } else { 1500 }) {
+        let dim = 2 + rng.below(2);
+        let nv = 1 + rng.below(8);
+        let edges = random_pgraph(&mut rng, dim, nv);
+        pg_case(&mut ctx, &edges, "random");
     }
     ctx.finish();
 }
